@@ -70,6 +70,7 @@ class Ctx:
         self.model = None        # a model of base ∧ pc (lazy)
         self.fixed = {}          # z3 const id -> python int, learnt from decided equalities
         self.hash_tokens = []
+        self.decided_lits = {}   # z3 ast id -> (decision, literal kept alive)
         del _PICKLE_REG[:]
         self.str_calls = 0
         self.nonlinear = 0
@@ -144,6 +145,19 @@ class Ctx:
             return True
         if z3.is_false(e):
             return False
+        # a literal already decided on this path keeps its decision (no new trace entry: re-executions see the same sequence of fresh literals)
+        hit = self.decided_lits.get(e.get_id())
+        if hit is not None:
+            return hit[0]
+        if z3.is_not(e):
+            hit = self.decided_lits.get(e.arg(0).get_id())
+            if hit is not None:
+                return not hit[0]
+        b = self._decide_fresh(e)
+        self.decided_lits[e.get_id()] = (b, e)
+        return b
+
+    def _decide_fresh(self, e):
         i = len(self.trace)
         if i < len(self.prefix):
             b = self.prefix[i]
